@@ -266,6 +266,8 @@ def at_modular_call(I, c, env, snap, caller_old):
                 I.path.prove(I.eval_spec(src, I.top_env), "%s/crash-inv:%s@call:%s" % (cur.short, nm, c.short), "invariant", where=src)
         finally:
             I.old_env = snap
+        # an interrupt delivered inside the callee leaves one of its intermediate states behind
+        _interrupt(I, "call", "inside")
     if getattr(cur, "fs_policy", None):
         if not getattr(c, "fs_policy", None):
             raise Unsupported("callee %s modifies the file system but declares no effect policy (fs_policy)" % c.short)
